@@ -526,6 +526,19 @@ def check(run: Run) -> None:
                             f"{fd_.qual}({', '.join(ty for ty, nm in fa_.params)}) never uses its `max_pending` argument: the policy it builds is unbounded", loc=fa_.loc(fa_.body))
         run.sites(n_f, 4, "functions taking a capacity")
 
+    with run.obligation("C16.k", "K2", "stop protocol of the source node itself: the policy stop (clears accepting, wakes every producer parked in send_blocking) runs BEFORE the "
+                        "user's on_stop hook and before the wait for quiescence - an on_stop that joins its producer thread (the start-thread-in-on_start idiom) would "
+                        "otherwise wait for a send that only the later policy stop can fail; begin_close never after the policy stop, detach never before the wait"):
+        fa = R.fn(run, PUSH, "push_source_stop")
+        fl = R.flow(run, fa)
+        pstop = R.call_is(callee=r"detail::PushSourcePolicyAccess::stop")
+        hook = R.call_is(callee=r"context\.on_stop")
+        waitq = R.call_is(name="wait_for_quiescence")
+        R.k2_precede(run, "C16.k", fl, pstop, hook, "stop: policy stop before the user's on_stop hook")
+        R.k2_precede(run, "C16.k", fl, pstop, waitq, "stop: policy stop before wait_for_quiescence")
+        R.k2_never_after(run, "C16.k", fl, pstop, R.call_is(name="begin_close"), "stop: begin_close after the policy stop")
+        R.k2_never_after(run, "C16.k", fl, R.call_is(name="detach"), waitq, "stop: wait_for_quiescence after detach")
+
 
 def cn_text(node, cn) -> str:
     return " ".join(cn(c) for c in R.calls(node))
@@ -534,6 +547,7 @@ def cn_text(node, cn) -> str:
 ANYARGS = ("anyargs",)
 
 VARIANTS = [
+    {"id": "k-seed-C16-5-policy-stop-deferred-past-on-stop", "expect": "C16.k", "edits": [{"file": PUSH, "find": "            detail::PushSourcePolicyAccess::stop(context.policy, policy_storage(context, view.data()));\n            if (control)\n            {\n                control->wait_for_quiescence();\n            }\n            auto detach = make_scope_exit([&] {\n                if (control) { control->detach(); }\n                control_slot.reset();\n            });", "replace": "            auto release = make_scope_exit([&] {\n                detail::PushSourcePolicyAccess::stop(context.policy, policy_storage(context, view.data()));\n                if (control)\n                {\n                    control->wait_for_quiescence();\n                    control->detach();\n                }\n                control_slot.reset();\n            });"}]},
     {"id": "i-rollback-waits-before-policy-stop", "expect": "C16.i", "edits": [{"file": PUSH, "find": "                if (control) { control->begin_close(); }\n                detail::PushSourcePolicyAccess::stop(context.policy, storage);\n                if (control)\n                {\n                    control->wait_for_quiescence();\n                    control->detach();\n                    control.reset();\n                }\n            });", "replace": "                if (control)\n                {\n                    control->begin_close();\n                    control->wait_for_quiescence();\n                    control->detach();\n                    control.reset();\n                }\n                detail::PushSourcePolicyAccess::stop(context.policy, storage);\n            });"}]},
     {"id": "j-value-schema-queue-factory-drops-capacity", "expect": "C16.j", "edits": [{"file": PUSH, "find": "        return make_policy(queue_policy_ops(), sender_schema, nullptr, max_pending);", "replace": "        return make_push_source_policy(PushSourcePolicyKind::Queue, sender_schema, nullptr);"}]},
     {"id": "f-stop-wakes-one-producer", "expect": "C16.f", "edits": [{"file": PUSH, "find": "                    consumer_thread = {};\n                }\n                capacity_available.notify_all();", "replace": "                    consumer_thread = {};\n                }\n                capacity_available.notify_one();"}]},
